@@ -1,18 +1,28 @@
 #!/bin/bash
-# every property's check must stay quiet on property-preserving rewrites
+# harmless_matrix.sh [diff files...]: every property's check must stay quiet on property-preserving
+# rewrites. Applies each rewrite to /repo, runs EVERY property's quick check (five at a time), records
+# the verdicts in seeded/harmless/MATRIX.tsv (and the replay of every alarm), undoes the rewrite.
 cd /verif
 PROPS=$(python3 -c "import sys; sys.path.insert(0,'/verif'); from checkconf import PROPS; print(' '.join(sorted(PROPS)))")
 OUT=seeded/harmless/MATRIX.tsv
 [ -n "$1" ] && [ -f $OUT ] || echo -e "rewrite\t$(echo $PROPS | tr ' ' '\t')" > $OUT
-for f in ${@:-seeded/harmless/H*.diff}; do
+one() {
+  p=$1; name=$2
+  r=$(./check $p 2>&1 | grep -E "^VIOLATION|: ok " | head -1)
+  if echo "$r" | grep -q "no-failing-input-found"; then v="V?"; elif echo "$r" | grep -q VIOLATION; then v="V"; cp "$(ls -t evidence/replay/$p-*.ops | head -1)" seeded/harmless/alarm-$name-$p.ops; elif echo "$r" | grep -q ": ok"; then v="."; else v="ERR"; fi
+  echo "$p $v" > work/hmatrix-$p.res
+}
+export -f one
+mkdir -p work
+for f in ${@:-seeded/harmless/*.diff}; do
   cd /repo; git status --short | grep -q . && { echo "/repo not clean"; exit 3; }
   git apply /verif/$f || { echo "$f does not apply"; continue; }
-  cd /verif; name=$(basename $f .diff); row=$name
-  for p in $PROPS; do
-    r=$(./check $p 2>&1 | grep -E "^VIOLATION|: ok " | head -1)
-    if echo "$r" | grep -q "no-failing-input-found"; then v="V?"; elif echo "$r" | grep -q VIOLATION; then v="V"; cp "$(ls -t evidence/replay/$p-*.ops | head -1)" seeded/harmless/alarm-$name-$p.ops; elif echo "$r" | grep -q ": ok"; then v="."; else v="ERR"; fi
-    row="$row\t$v"
-  done
+  cd /verif; name=$(basename $f .diff)
+  rm -f work/hmatrix-*.res
+  one C01 $name                                 # builds the harness against the rewritten tree first
+  echo $PROPS | tr ' ' '\n' | grep -v "^C01$" | xargs -P 5 -I{} bash -c "one {} $name"
+  row="$name"
+  for p in $PROPS; do row="$row\t$(cut -d' ' -f2 work/hmatrix-$p.res 2>/dev/null || echo ERR)"; done
   cd /repo; git checkout -q -- .; cd /verif
   grep -v "^$name	" $OUT > $OUT.tmp; mv $OUT.tmp $OUT
   echo -e "$row" | tee -a $OUT
